@@ -24,7 +24,22 @@ MH = "MiniMcmcVerif.MH."
 
 INI = "MiniMcmcVerif.Init."
 
+IO = "MiniMcmcVerif.IO."
+
 PROPS = {
+    "C17": {
+        "obligations": [IO + n for n in ["length_flatMap_const", "getElem_flatMap_const", "offset_in_bounds", "offset_injective", "rows_count", "rows_spec",
+                                         "rows_obs_major_count", "rows_obs_major_spec", "header_spec", "header_obs_major_spec"]],
+        "level_text": "Theorems (any C, N, K incl. zero-sized axes, any element type): the row/offset model emits exactly C*N rows, row (c,o) sits at position c*N+o with labels (c,o), its dim_d entry is "
+                      "element (c,o,d) of the row-major buffer, no slice leaves the buffer, the offset map is injective (each element exported once), header/schema as documented; twin statement for the "
+                      "observation-major Parquet tensor writer. Tied to src/io by calling every real writer, reading the files back with the csv / arrow-ipc / parquet readers and requiring the model "
+                      "to reproduce all labels and values exactly (f32->f64 widening recomputed in the model, NaN canonicalised).",
+        "level_note": "Trusted: the byte encoders/decoders of csv, arrow-ipc and parquet, and the readers used to read files back; ndarray's axis_iter order (modelled as nested lists).",
+        "rule": "shapes 0-6 x 0-40 x 0-8 (15% with a zero-sized axis, 30% tiny), element types f64/f32/i32/usize where the writer accepts them, 0/5/30% special values (subnormals, extremes, -0, NaN, +-inf, "
+                "values needing 17 digits); 12 writer/type combinations per shape incl. both tensor entry points; unwritable path must give Err; distinct by (writer, shape, element type)",
+        "trusted": ["csv / arrow-ipc / parquet encoders and readers", "ndarray axis_iter order"],
+        "assumptions": ["zero-sized burn tensors are exercised only if burn can construct them"],
+    },
     "C18": {
         "obligations": [INI + n for n in ["init_length", "init_row", "init_row_length", "init_prefix", "init_det_eq_42", "init_with_seed_prefix"]],
         "level_text": "Theorems (induction on n, any element type, any stream): the layout model returns exactly n vectors of length d, row i holds variates i*d..i*d+d-1 (row-major consumption), "
